@@ -572,7 +572,7 @@ namespace sim
 			{
 				m_udp_associate.non_blocking(true);
 				m_udp_associate.async_receive_from(boost::asio::buffer(m_udp_buffer)
-					, m_udp_from, 0, std::bind(&socks_connection::on_read_udp, this, std::placeholders::_1, std::placeholders::_2));
+					, m_udp_from, 0, std::bind(&socks_connection::on_read_udp, shared_from_this(), std::placeholders::_1, std::placeholders::_2));
 			}
 		}
 
@@ -614,6 +614,10 @@ namespace sim
 		if (m_flags & socks_flag::disconnect_udp_associate)
 		{
 			std::printf("socks_connection::wait_for_eof: closing connection prematurely\n");
+			// the relay goes with it: its receive holds a reference to this
+			// connection
+			m_udp_associate.close();
+			m_udp_associate_ep = udp::endpoint();
 			m_client_connection.close();
 			return;
 		}
@@ -660,7 +664,7 @@ namespace sim
 			{
 				std::printf("UDP ASSOCIATE datagram shorter than its header, dropped\n");
 				m_udp_associate.async_receive_from(boost::asio::buffer(m_udp_buffer)
-					, m_udp_from, 0, std::bind(&socks_connection::on_read_udp, this, std::placeholders::_1, std::placeholders::_2));
+					, m_udp_from, 0, std::bind(&socks_connection::on_read_udp, shared_from_this(), std::placeholders::_1, std::placeholders::_2));
 			};
 
 			// RSV(2) FRAG(1) ATYP(1) and the first address byte
@@ -703,7 +707,7 @@ namespace sim
 					if (err) std::printf("send_to failed: %s\n", err.message().c_str());
 					// keep receiving
 					m_udp_associate.async_receive_from(boost::asio::buffer(m_udp_buffer)
-						, m_udp_from, 0, std::bind(&socks_connection::on_read_udp, this, std::placeholders::_1, std::placeholders::_2));
+						, m_udp_from, 0, std::bind(&socks_connection::on_read_udp, shared_from_this(), std::placeholders::_1, std::placeholders::_2));
 					return;
 				}
 
@@ -822,7 +826,7 @@ namespace sim
 		}
 
 		m_udp_associate.async_receive_from(boost::asio::buffer(m_udp_buffer)
-			, m_udp_from, 0, std::bind(&socks_connection::on_read_udp, this, std::placeholders::_1, std::placeholders::_2));
+			, m_udp_from, 0, std::bind(&socks_connection::on_read_udp, shared_from_this(), std::placeholders::_1, std::placeholders::_2));
 	}
 
 	void socks_connection::start_accept(boost::system::error_code const& ec)
